@@ -189,7 +189,16 @@ end Heap
 def mkObj (d : ObjDecl) : Obj :=
   let a0 := (((d.args[0]?).bind String.toNat?).getD 0)
   match d.kind with
-  | "atomic" => .atomic { value := a0 }
+  | "atomic" =>
+    -- `obj a atomic <init> [u8|u16|u32|u64|usize|i8|i16|i32|i64|isize|bool]` (`init as T`)
+    let ty := (d.args[1]?).getD "u64"
+    let (bits, signed, isBool) : Nat × Bool × Bool := match ty with
+      | "u8" => (8, false, false) | "u16" => (16, false, false) | "u32" => (32, false, false)
+      | "i8" => (8, true, false) | "i16" => (16, true, false) | "i32" => (32, true, false)
+      | "i64" | "isize" => (64, true, false)
+      | "bool" => (1, false, true)
+      | _ => (64, false, false)
+    .atomic { value := a0 % 2 ^ bits, bits := bits, signed := signed, isBool := isBool }
   | "mutex" => .mutex { value := a0 }
   | "rwlock" => .rwlock { value := a0 }
   -- `BatchSemaphore::new` runs in task 0 at the start of the test body: the initial batch
@@ -343,20 +352,29 @@ def execOp (ir : IR) (k : Nat) (pc : Nat) (op : Op) : P String := do
   | "panic" => K.panic "vp-panic"
   | "obs" => pure "ok"
   -- atomics
-  | "aload" => do let v ← Atomic.load (Heap.atomicL oi); pure s!"v:{v}"
-  | "astore" => do Atomic.store (Heap.atomicL oi) (op.num 1); pure "ok"
-  | "aswap" => do let v ← Atomic.swap (Heap.atomicL oi) (op.num 1); pure s!"v:{v}"
-  | "aadd" => do let r ← Atomic.fetchUpdate (Heap.atomicL oi) (fun o => some (o + op.num 1)); pure s!"v:{r.2}"
-  | "asub" => do let r ← Atomic.fetchUpdate (Heap.atomicL oi) (fun o => some (wrap64 ((o : Int) - (op.num 1 : Int)))); pure s!"v:{r.2}"
-  | "aand" => do let r ← Atomic.fetchUpdate (Heap.atomicL oi) (fun o => some (o &&& op.num 1)); pure s!"v:{r.2}"
-  | "aor" => do let r ← Atomic.fetchUpdate (Heap.atomicL oi) (fun o => some (o ||| op.num 1)); pure s!"v:{r.2}"
-  | "axor" => do let r ← Atomic.fetchUpdate (Heap.atomicL oi) (fun o => some (o ^^^ op.num 1)); pure s!"v:{r.2}"
-  | "anand" => do let r ← Atomic.fetchUpdate (Heap.atomicL oi) (fun o => some ((2 ^ 64 - 1) - (o &&& op.num 1))); pure s!"v:{r.2}"
-  | "amax" => do let r ← Atomic.fetchUpdate (Heap.atomicL oi) (fun o => some (max o (op.num 1))); pure s!"v:{r.2}"
-  | "amin" => do let r ← Atomic.fetchUpdate (Heap.atomicL oi) (fun o => some (min o (op.num 1))); pure s!"v:{r.2}"
-  | "acas" =>
-    let r ← Atomic.fetchUpdate (Heap.atomicL oi) (fun o => if o == op.num 1 then some (op.num 2) else none)
-    pure (if r.1 then s!"ok:{r.2}" else s!"err:{r.2}")
+  | "aload" | "astore" | "aswap" | "aadd" | "asub" | "aand" | "aor" | "axor" | "anand" | "amax" | "amin" | "acas" => do
+    -- the operands are `u64` literals cast to the atomic's type; results print as that type does
+    let a0 ← K.getL (Heap.atomicL oi)
+    let L := Heap.atomicL oi
+    let v := a0.norm (op.num 1)
+    let w := a0.norm (op.num 2)
+    let top := 2 ^ a0.bits
+    let sh := a0.render
+    match op.name with
+    | "aload" => do let x ← Atomic.load L; pure s!"v:{sh x}"
+    | "astore" => do Atomic.store L v; pure "ok"
+    | "aswap" => do let x ← Atomic.swap L v; pure s!"v:{sh x}"
+    | "aadd" => do let r ← Atomic.fetchUpdate L (fun o => some (o + v)); pure s!"v:{sh r.2}"
+    | "asub" => do let r ← Atomic.fetchUpdate L (fun o => some (o + top - v)); pure s!"v:{sh r.2}"
+    | "aand" => do let r ← Atomic.fetchUpdate L (fun o => some (o &&& v)); pure s!"v:{sh r.2}"
+    | "aor" => do let r ← Atomic.fetchUpdate L (fun o => some (o ||| v)); pure s!"v:{sh r.2}"
+    | "axor" => do let r ← Atomic.fetchUpdate L (fun o => some (o ^^^ v)); pure s!"v:{sh r.2}"
+    | "anand" => do let r ← Atomic.fetchUpdate L (fun o => some ((top - 1) - (o &&& v))); pure s!"v:{sh r.2}"
+    | "amax" => do let r ← Atomic.fetchUpdate L (fun o => some (if a0.le o v then v else o)); pure s!"v:{sh r.2}"
+    | "amin" => do let r ← Atomic.fetchUpdate L (fun o => some (if a0.le o v then o else v)); pure s!"v:{sh r.2}"
+    | _ => do
+      let r ← Atomic.fetchUpdate L (fun o => if o == v then some w else none)
+      pure (if r.1 then s!"ok:{sh r.2}" else s!"err:{sh r.2}")
   -- mutex
   | "lock" =>
     let r ← Mutex.lock (Heap.mutexL oi)
@@ -451,6 +469,18 @@ def execOp (ir : IR) (k : Nat) (pc : Nat) (op : Op) : P String := do
       -- the guard moves into `Condvar::wait`; the one it returns is pushed back as the most recent
       K.setL (Heap.localL k) { l with guards := l.guards.eraseIdx i }
       let r ← Condvar.wait (Heap.condvarL oi) (Heap.mutexL mi)
+      let l ← K.getL (Heap.localL k)
+      K.setL (Heap.localL k) { l with guards := l.guards ++ [(mi, .m)] }
+      pure (lockResStr r)
+  | "wait_while" =>
+    -- `wait_while cv m v`: `cv.wait_while(guard, |x| *x == v)`
+    let mi := ir.objIndex (op.arg 1)
+    let l ← K.getL (Heap.localL k)
+    match (l.guards.zipIdx.reverse.find? (fun p => p.1.1 == mi && p.1.2 == .m)).map (·.2) with
+    | none => pure "noguard"
+    | some i =>
+      K.setL (Heap.localL k) { l with guards := l.guards.eraseIdx i }
+      let r ← Condvar.waitWhile (Heap.condvarL oi) (Heap.mutexL mi) (fun x => x == op.num 2) Sem.loopFuel
       let l ← K.getL (Heap.localL k)
       K.setL (Heap.localL k) { l with guards := l.guards ++ [(mi, .m)] }
       pure (lockResStr r)
